@@ -111,6 +111,7 @@ func init() {
 			e.callValue(a[0], nil)
 			return res
 		},
+		zzPath + ".NativeRepeat": func(e *Exec, fn *ssa.Function, a []Value) Value { return e.ts.Const(64, 1) },
 		zzPath + ".Go":          inZZGo,
 		zzPath + ".WaitThreads": inZZWaitThreads,
 		zzPath + ".Settle":      inZZSettle,
